@@ -870,6 +870,48 @@ theorem actPhase_one (K : PCtx) (wf : K.WF) (po : Nat) (F : Nat) (callOk : X.Exp
           frm3.mono (by simp only; omega) (Nat.le_refl _)
         exact (f1.trans f2).trans f3
 
+/-- **Actuals with calls of pure functions**: the actuals with calls are evaluated first and parked
+    (their callees change nothing the representation looks at), then all are stored. -/
+theorem actPhase_pp (K : PCtx) (wf : K.WF) (ps : List String) (pk : PureOk K.xc)
+    (hps : ∀ g, ps.contains g = true → ∃ p, K.xc.genv.lookup g = some (.proc p))
+    (hnoloc : ∀ st mem, Rep K st mem → NoLoc ps st) (po f : Nat) (hleaf : ∀ k, k ≤ f → CallLeaf K ps k)
+    (es : List X.Expr) (hp : ∀ e ∈ es, ppE ps K.xc.impure e = true) : ActPhase K po f es := by
+  refine ⟨fun st gs c1 gs1 c2 gs2 i a b mem h1 h2 hat hr hb hnl hci => ?_⟩
+  cases hev : X.evalArgs f K.xc es st with
+  | undef w => trivial
+  | exit c s => exact absurd hev ((evalArgs_pp K.xc ps hps pk f es st hp (hnoloc st mem hr)).2 c s)
+  | ok ws s =>
+    simp only
+    obtain ⟨hsim, hlenv, hsave, hload⟩ := ppArgs_specs K wf ps pk hps es f hleaf st st s ws
+      hp (Sim.refl _) (hnoloc st mem hr) hev
+    have hlen : (optArgsOf K.ρ es).length = es.length := by simp [optArgsOf]
+    have hlenW : (optArgsOf K.ρ es).length = (ws.map K.VRep).length := by simp [optArgsOf, hlenv]
+    obtain ⟨f1o, f1s, f1c, f1os⟩ := genCallActuals_facts _ _ _ _ _ h1
+    simp only at f1o f1s f1c f1os
+    obtain ⟨b1o, b1s, _, b1p, b1c⟩ := bumpN_facts (countCalls (optArgsOf K.ρ es)) { gs1 with offset := gs.offset }
+    simp only at b1o b1s b1p b1c
+    obtain ⟨e2o, e2s, _, e2c⟩ := loadActuals_eff _ _ _ _ _ _ _ h2
+    have hcib : ConstsIn K (bumpN (countCalls (optArgsOf K.ρ es)) { gs1 with offset := gs.offset }) :=
+      fun x hx => hci x (e2c x hx)
+    have hci1 : ConstsIn K gs1 := fun x hx => hcib x (by rw [b1c]; exact hx)
+    obtain ⟨a1, b1, mem1, st1, rep1, hsv, _, _, _, frm1⟩ := exec_saveItems K wf st _ _ hlenW hsave
+      { gs with size := gs.offset } c1 gs1 i a b mem h1 hat.left hr (by omega) hnl
+      (f1os (Nat.le_refl _)) hci1
+    obtain ⟨a2, b2, mem2, st2, rep2, hvals, _, frm2⟩ := exec_loadItems K wf st _ _ hlenW hload
+      po gs.offset _ c2 gs2 (i + (K.low c1).length) a1 b1 mem1 h2 hat.right rep1 hsv
+      (by rw [b1o]; exact Nat.le_refl _) (by rw [hlen]; omega)
+      (by rw [b1o]; omega)
+      (by rw [b1o]; by_cases hn : 0 < countCalls (optArgsOf K.ρ es)
+          · exact b1p hn
+          · omega) hci
+    have hio : s.io = st.io := hsim.2.2.2.1.symm
+    refine ⟨a2, b2, mem2, ?_, rep2.sim hsim, ?_, frm1.trans (frm2.mono (by rw [b1o]; omega) (Nat.le_refl _))⟩
+    · rw [hio]; exact st1.trans st2
+    · intro k hk
+      have := hvals k (by simpa using hk)
+      simp only [List.getElem_map] at this
+      exact this
+
 /-- A user call whose actuals are handled by `ActPhase`. -/
 theorem argsOK_of_phase {G : GCtx} (ok : G.OK) {pi : PInfo} (hpi : pi ∈ G.procs) (sp dep : Nat) (hi : Nat → Word)
     (hlo : G.lo ≤ sp) (hspv : sp + G.S pi + pi.po + pi.p.formals.length ≤ G.spv + 1) (hstack : G.spv ≤ sp + dep * G.smax)
